@@ -2,8 +2,11 @@
 
 package tlcp
 
+//verif:twin dtlcp
+
 import (
 	"bytes"
+	"context"
 	"crypto"
 	"errors"
 	"hash"
@@ -27,6 +30,7 @@ import (
 //verif:replace Conn.verifyServerCertificate
 //verif:replace Conn.verifySessionCertificates
 //verif:replace prfAndHashForVersion
+//verif:replacecall crypto/hmac.New verif_hmac_New
 //
 //verif:assume cut M: readHandshake / readChangeCipherSpec / writeHandshakeRecord / writeChangeCipherRecord / flush / sendAlert are stubs: every read returns an arbitrary message kind with bounded arbitrary fields (or an error); messages carry 2 arbitrary raw bytes
 //verif:assume cut M: verifyServerCertificate is a stub with an arbitrary verdict (the real function is checked by the C02 x509 harness); key agreement is a stub with arbitrary verdicts (the real functions are checked by the kx harnesses)
@@ -76,6 +80,7 @@ var vg struct {
 	putVals  [6]*SessionState
 	finPos   int // length of vg.wire before the peer's Finished
 	keBlocks int
+	hellosRead int
 }
 
 func vgNote(k int) {
@@ -147,6 +152,17 @@ func prfAndHashForVersion(version uint16, suite *cipherSuite) (func(result, secr
 	return prf, func() hash.Hash { return &verifTranscript{} }
 }
 
+// HMAC (record MAC constructor, DTLCP cookie): arbitrary tags; nothing in the drivers depends on their value
+type verifDriverHMAC struct{}
+
+func (h *verifDriverHMAC) Write(p []byte) (int, error) { return len(p), nil }
+func (h *verifDriverHMAC) Sum(b []byte) []byte         { return append(b, verifNondetBytes("hmac", 32)...) }
+func (h *verifDriverHMAC) Reset()                      {}
+func (h *verifDriverHMAC) Size() int                   { return 32 }
+func (h *verifDriverHMAC) BlockSize() int              { return 64 }
+
+func verif_hmac_New(f func() hash.Hash, key []byte) hash.Hash { return &verifDriverHMAC{} }
+
 type verifSigner struct{}
 
 func (verifSigner) Public() crypto.PublicKey { return nil }
@@ -193,6 +209,15 @@ func (c *Conn) readHandshake(transcript transcriptHash) (interface{}, error) {
 	k := verifSplitInt("kind", 0, 9)
 	if k == kErr {
 		return nil, errors.New("read error")
+	}
+	if k == kCH && verifDatagramStack && vs.sentSID != nil {
+		// datagram stack: a ClientHello arriving after the server's flight is a retransmission; the server
+		// answers it by resending its flight and it is not part of the message sequence or of the transcript
+		vg.hellosRead++
+		if vg.hellosRead > 2 {
+			verifAssume(false)
+		}
+		return &clientHelloMsg{raw: rawOf(typeClientHello)}, nil
 	}
 	vgNote(k)
 	var m handshakeMessage
@@ -251,6 +276,11 @@ func (c *Conn) readHandshake(transcript transcriptHash) (interface{}, error) {
 		case 4:
 			ch.cipherSuites = []uint16{0x1234, ECC_SM4_GCM_SM3, ECC_SM4_CBC_SM3, ECDHE_SM4_GCM_SM3, ECDHE_SM4_CBC_SM3}
 		}
+		vg.hellosRead++
+		if vg.hellosRead > 2 {
+			verifAssume(false) // at most two ClientHellos per run (datagram stack: cookie round trip)
+		}
+		verifDriverCookie(ch) // datagram stack: the hello may carry a cookie (the cookie phase itself is checked by the hsMd group)
 		m = ch
 	}
 	if k == kCertVerify {
@@ -280,6 +310,12 @@ func (c *Conn) writeHandshakeRecord(msg handshakeMessage, transcript transcriptH
 	if vg.nsent < 12 {
 		vg.sent[vg.nsent] = int(msg.messageType())
 		vg.nsent++
+	}
+	if verifIsHelloVerifyRequest(msg) {
+		// datagram stack: the cookie round trip (first ClientHello, HelloVerifyRequest) is not part of the
+		// handshake transcript; the message sequence starts again with the second ClientHello
+		vg.wire, vg.n = nil, 0
+		return 0, nil
 	}
 	if sh, ok := msg.(*serverHelloMsg); ok {
 		vs.sentSID = sh.sessionId
@@ -386,7 +422,7 @@ func matchKinds(w []int) bool {
 
 // C02 / C03 / C08 / C10 / C12 — the real client handshake against a symbolic peer.
 //
-//verif:harness props=C02,C03,C08,C10,C12,C09 paths=400000 tpaths=4000000 depth=300 reach=completedFull,completedResumed,failed
+//verif:harness props=C02,C03,C08,C10,C12,C09 twinprops=C02,C03,C08,C10 paths=400000 tpaths=4000000 depth=300 reach=completedFull,completedResumed,failed
 func VerifHarness_client_handshake() {
 	stubSuites()
 	cache := &verifCache{}
@@ -403,8 +439,8 @@ func VerifHarness_client_handshake() {
 			peerCertificates: []*x509.Certificate{{Raw: []byte{1}}, {Raw: []byte{2}}}}
 		cache.sess = offered
 	}
-	c := &Conn{conn: &verifNullConn{}, config: cfg, isClient: true}
-	err := c.clientHandshake(nil)
+	c := verifDriverConn(cfg, true)
+	err := c.clientHandshake(context.Background())
 	if err != nil {
 		verifReach("failed")
 		verifAssert("C12.client.notCompleteOnError", !c.handshakeComplete())
